@@ -10,7 +10,8 @@ attribute path) on the final file are compared.
 Independently of the model a Python oracle (a dict id -> bytes, a volume counter) judges the Go outputs
 directly against the property text; it also decides the class of a history:
   in-domain            total inserted volume <= usable size of one direct block, overwrite/delete address live ids
-  multi-block          an insert does not fit the first direct block        (KNOWN_FINDINGS C15-multi-block)
+  multi-block          an insert does not fit the first direct block: it succeeds in memory, every later write-out is
+                       refused                                              (KNOWN_FINDINGS C15-multi-block)
   dead-id              overwrite/delete of an id that is not live           (KNOWN_FINDINGS C15-dead-id)
   offset-wrap          block size above 64 KiB and an object beyond offset 65535 (KNOWN_FINDINGS C15-offset-wrap)
 """
@@ -220,8 +221,8 @@ def judge(case, res):
     vol = 0
     cls = "in-domain"
     problems = []             # property violated on an in-domain prefix
-    facts = {"failed_insert_changed_state": 0, "load_failed": 0, "dead_delete_ok": 0, "count_wrong": 0,
-             "nondet": 0, "wrapped": 0}
+    facts = {"failed_insert_changed_state": 0, "load_failed": 0, "store_refused": 0, "dead_delete_ok": 0, "count_wrong": 0,
+             "nondet": 0, "wrapped": 0, "overflow_insert_ok": 0, "bigger_than_block_ok": 0, "modify_other_block_failed": 0}
 
     def rid(op):
         if "ref" in op:
@@ -252,6 +253,9 @@ def judge(case, res):
                 if r["ok"]:
                     ever[i] = r["id"]
                     live[r["id"]] = d
+                    facts["overflow_insert_ok"] += 1
+                    if len(d) > u:
+                        facts["bigger_than_block_ok"] += 1
                 elif not r["same"]:
                     facts["failed_insert_changed_state"] += 1
             else:
@@ -304,6 +308,8 @@ def judge(case, res):
                         live[idh] = d
                     elif indom:
                         problems.append((i, "same-size overwrite of live id %s failed" % idh))
+                    elif cls == "multi-block":
+                        facts["modify_other_block_failed"] += 1
                 else:
                     if indom and (r["ok"] or not r["same"]):
                         problems.append((i, "overwrite with a different size must fail and change nothing"))
@@ -321,6 +327,8 @@ def judge(case, res):
                     del live[idh]
                 elif indom:
                     problems.append((i, "delete of live id %s failed" % idh))
+                elif cls == "multi-block":
+                    facts["modify_other_block_failed"] += 1
             else:
                 malformed = idh is None or len(idh) != 16 or (int(idh[:2], 16) & 0xF0) != 0
                 if malformed:
@@ -334,7 +342,9 @@ def judge(case, res):
         elif k == "sl":
             if not r["ok"]:
                 if indom:
-                    problems.append((i, "store/load failed: %s" % r.get("err")))
+                    problems.append((i, "store/load failed (%s): %s" % (r.get("stage"), r.get("err"))))
+                elif r.get("stage") == "store":
+                    facts["store_refused"] += 1
                 else:
                     facts["load_failed"] += 1
         # header accounting after every operation
@@ -364,6 +374,8 @@ def judge(case, res):
             problems.append((len(ops), "harness did not read every live id back"))
     elif cls == "in-domain":
         problems.append((len(ops), "final store failed: %s" % res["store"].get("err")))
+    else:
+        facts["store_refused"] += 1
     if lost:
         if cls == "in-domain":
             idh, inblk, ro, co = lost[0]
@@ -429,8 +441,9 @@ def coq_case(name, case, res):
     for e in res.get("readers") or []:
         readers.append("mkRObs %s %s %s %s %s" % (
             cb(e["id"]), vlib.cbool(e["ro"]["ok"]), dg(e["ro"].get("data")), vlib.cbool(e["core"]["ok"]), dg(e["core"].get("data"))))
-    return "Definition %s : tcase := mkCase %d [%s] [%s] %d %d [%s].\n" % (
-        name, case["bs"], "; ".join(ops), "; ".join(obs), crc(st.get("hdr", "")), st.get("blkcrc", 0), "; ".join(readers))
+    return "Definition %s : tcase := mkCase %d [%s] [%s] %s %d %d [%s].\n" % (
+        name, case["bs"], "; ".join(ops), "; ".join(obs), vlib.cbool(bool(st.get("ok"))), crc(st.get("hdr", "")),
+        st.get("blkcrc", 0), "; ".join(readers))
 
 
 def shape(case):
@@ -611,12 +624,19 @@ def run(ctx):
         else:
             viol.append(dict(what=line, failing_input=witness))
     mb = [i for i, v in enumerate(verdicts) if v and v["cls"] == "multi-block"]
-    mb_bad = [i for i in mb if verdicts[i]["facts"].get("lost_after_store") or verdicts[i]["facts"]["load_failed"]
-              or verdicts[i]["facts"]["failed_insert_changed_state"]]
+    F = lambda i, k: verdicts[i]["facts"].get(k, 0)
+    mb_bad = [i for i in mb if F(i, "overflow_insert_ok") or F(i, "failed_insert_changed_state")]
+    mb_lost = [i for i in mb if F(i, "lost_after_store") or F(i, "load_failed")]
+    if mb_lost:      # since 5ec600b a multi-block heap must never reach the file
+        viol.append(dict(what="a heap that outgrew one direct block was written out and objects are unreadable afterwards",
+                         failing_input=cases[mb_lost[0]]))
     finding("C15-multi-block", bool(mb_bad),
-            "total volume exceeds one direct block: %d/%d such histories lose objects on write-out (only the first direct block is written, "
-            "both loaders refuse or misread it); %d had a failing insert that changed the state" % (
-                len(mb_bad), len(mb), sum(1 for i in mb if verdicts[i]["facts"]["failed_insert_changed_state"])),
+            "total volume exceeds one direct block: in %d/%d such histories the insert that does not fit succeeds in memory (indirect root) "
+            "instead of failing; write-out is then refused (ErrHeapFull) in %d; a failing insert changed the state in %d; an object larger "
+            "than a block was accepted in %d; overwrite/delete of an id outside the first block failed in %d; map-order dependent inserts in %d" % (
+                len([i for i in mb if F(i, "overflow_insert_ok")]), len(mb), len([i for i in mb if F(i, "store_refused")]),
+                len([i for i in mb if F(i, "failed_insert_changed_state")]), len([i for i in mb if F(i, "bigger_than_block_ok")]),
+                len([i for i in mb if F(i, "modify_other_block_failed")]), nondet),
             cases[mb_bad[0]] if mb_bad else None)
     dd = [i for i, v in enumerate(verdicts) if v and v["cls"] == "dead-id"]
     dd_bad = [i for i in dd if verdicts[i]["facts"]["dead_delete_ok"] and verdicts[i]["facts"]["count_wrong"]]
